@@ -1,7 +1,464 @@
-(* Properties/C04.v — placeholder until the theorems over Model/Core.v are assembled. *)
-From Coq Require Import ZArith List.
+(* Properties/C04.v — queries stay inside the selected lexicons (model: Model/Core.v over Model/Query.v, Model/Tables.v).
+   [scope d w l] (Proofs/ScopeProofs.v) is the set of lexicon rowids an entity of lexicon l may reach in
+   Wordnet w: the Wordnet's selection outside default mode, the entity's own lexicon family in default mode.
+   [db_ok] (Proofs/QueryFacts.v) = rowids are unique, no entity has lexicon rowid 0, senses resolve.
+   [expanded_target_ok] = in scope, or an inferred placeholder (rowid 0) carrying the source's lexicon.
+   Statements only: every theorem is closed by `exact` of a lemma proved under Proofs/, followed by
+   Print Assumptions.  (Statement texts were printed by Coq from the proved lemmas by harness/mkprops.py and are
+   fixed from then on.) *)
+From Coq Require Import String.
+From Coq Require Import ZArith List Bool.
 Import ListNotations.
-Require Import WnV.Base.Sx WnV.Model.Core.
-Example C04_model_present : run_core (L []) = run_core (L []).
-Proof. reflexivity. Qed.
-Print Assumptions C04_model_present.
+Require Import WnV.Base.Sx WnV.Model.Spec WnV.Model.Tables WnV.Model.Query WnV.Model.Core.
+Require Import WnV.Proofs.CoreLemmas WnV.Proofs.QueryFacts WnV.Proofs.ScopeProofs WnV.Proofs.SearchProofs
+        WnV.Proofs.NavProofs WnV.Proofs.RelGeneric WnV.Proofs.RelProofs WnV.Proofs.RelClosureProofs
+        WnV.Proofs.ExpandProofs WnV.Proofs.FrameProofs WnV.Proofs.CoreNonvacuity.
+Local Open Scope Z_scope.
+
+(* ---- the scope itself *)
+Theorem C04_scope_nondefault :
+  forall (d : db) (w : Wordnet) (l : Z),
+         wn_default_mode w = false -> scope d w l = wn_lexicon_ids w.
+Proof. exact (@scope_nondefault). Qed.
+Print Assumptions C04_scope_nondefault.
+
+Theorem C04_scope_default :
+  forall (d : db) (w : Wordnet) (l x : Z),
+         wn_default_mode w = true ->
+         In x (scope d w l) <->
+         x = l \/
+         In (Some x) (get_lexicon_extension_bases d l (-1)) \/
+         In (Some x) (get_lexicon_extensions d l (-1)).
+Proof. exact (@scope_default). Qed.
+Print Assumptions C04_scope_default.
+
+Theorem C04_Wordnet_init_selects :
+  forall (d : db) (lexicon lang expand : option str) (nz : bool) (nt : list (str * str))
+           (lem : option (list (str * list (option str * list str)))) (saf : bool)
+           (w : Wordnet),
+         Wordnet_init d lexicon lang expand nz nt lem saf = Ok w ->
+         t_lexicons d <> [] -> wn_lexicon_ids w <> [].
+Proof. exact (@Wordnet_init_selects). Qed.
+Print Assumptions C04_Wordnet_init_selects.
+
+(* ---- primary queries of a Wordnet return entities of the selected lexicons, bound to that Wordnet *)
+Theorem C04_Wordnet_words_scope :
+  forall (d : db) (w : Wordnet) (form pos : option str) (x : Word),
+         wn_lexicon_ids w <> [] ->
+         In x (Wordnet_words d w form pos) -> In (wd_lexid x) (wn_lexicon_ids w) /\ wd_wordnet x = w.
+Proof. exact (@Wordnet_words_scope). Qed.
+Print Assumptions C04_Wordnet_words_scope.
+
+Theorem C04_Wordnet_senses_scope :
+  forall (d : db) (w : Wordnet) (form pos : option str) (x : Sense),
+         wn_lexicon_ids w <> [] ->
+         In x (Wordnet_senses d w form pos) -> In (sn_lexid x) (wn_lexicon_ids w) /\ sn_wordnet x = w.
+Proof. exact (@Wordnet_senses_scope). Qed.
+Print Assumptions C04_Wordnet_senses_scope.
+
+Theorem C04_Wordnet_synsets_scope :
+  forall (d : db) (w : Wordnet) (form pos ili : option str) (x : Synset),
+         wn_lexicon_ids w <> [] ->
+         In x (Wordnet_synsets d w form pos ili) ->
+         In (ss_lexid x) (wn_lexicon_ids w) /\ ss_wordnet x = w.
+Proof. exact (@Wordnet_synsets_scope). Qed.
+Print Assumptions C04_Wordnet_synsets_scope.
+
+Theorem C04_Wordnet_word_scope :
+  forall (d : db) (w : Wordnet) (id : str) (x : Word),
+         wn_lexicon_ids w <> [] ->
+         Wordnet_word d w id = Ok x ->
+         In (wd_lexid x) (wn_lexicon_ids w) /\ wd_wordnet x = w /\ (id <> [] -> wd_id x = id).
+Proof. exact (@Wordnet_word_scope). Qed.
+Print Assumptions C04_Wordnet_word_scope.
+
+Theorem C04_Wordnet_sense_scope :
+  forall (d : db) (w : Wordnet) (id : str) (x : Sense),
+         wn_lexicon_ids w <> [] ->
+         Wordnet_sense d w id = Ok x -> In (sn_lexid x) (wn_lexicon_ids w) /\ sn_wordnet x = w.
+Proof. exact (@Wordnet_sense_scope). Qed.
+Print Assumptions C04_Wordnet_sense_scope.
+
+Theorem C04_Wordnet_synset_scope :
+  forall (d : db) (w : Wordnet) (id : str) (x : Synset),
+         wn_lexicon_ids w <> [] ->
+         Wordnet_synset d w id = Ok x -> In (ss_lexid x) (wn_lexicon_ids w) /\ ss_wordnet x = w.
+Proof. exact (@Wordnet_synset_scope). Qed.
+Print Assumptions C04_Wordnet_synset_scope.
+
+(* ---- every navigation step stays in the scope of its receiver (any mode) and keeps the Wordnet *)
+Theorem C04_Word_senses_scope :
+  forall (d : db) (w : Word) (s : Sense),
+         In s (Word_senses d w) ->
+         In (sn_lexid s) (scope d (wd_wordnet w) (wd_lexid w)) /\ sn_wordnet s = wd_wordnet w.
+Proof. exact (@Word_senses_scope). Qed.
+Print Assumptions C04_Word_senses_scope.
+
+Theorem C04_Synset_senses_scope :
+  forall (d : db) (y : Synset) (s : Sense),
+         In s (Synset_senses d y) ->
+         In (sn_lexid s) (scope d (ss_wordnet y) (ss_lexid y)) /\ sn_wordnet s = ss_wordnet y.
+Proof. exact (@Synset_senses_scope). Qed.
+Print Assumptions C04_Synset_senses_scope.
+
+Theorem C04_Sense_word_scope :
+  forall (d : db) (s : Sense) (x : Word),
+         db_ok d = true ->
+         Sense_word d s = Ok x ->
+         In (wd_lexid x) (scope d (sn_wordnet s) (sn_lexid s)) /\ wd_wordnet x = sn_wordnet s.
+Proof. exact (@Sense_word_scope). Qed.
+Print Assumptions C04_Sense_word_scope.
+
+Theorem C04_Sense_synset_scope :
+  forall (d : db) (s : Sense) (y : Synset),
+         db_ok d = true ->
+         Sense_synset d s = Ok y ->
+         In (ss_lexid y) (scope d (sn_wordnet s) (sn_lexid s)) /\ ss_wordnet y = sn_wordnet s.
+Proof. exact (@Sense_synset_scope). Qed.
+Print Assumptions C04_Sense_synset_scope.
+
+Theorem C04_Word_synsets_scope :
+  forall (d : db) (w : Word) (ys : list Synset) (y : Synset),
+         db_ok d = true ->
+         Word_synsets d w = Ok ys ->
+         In y ys ->
+         exists s : Sense,
+           In s (Word_senses d w) /\
+           Sense_synset d s = Ok y /\
+           In (ss_lexid y) (scope d (wd_wordnet w) (sn_lexid s)) /\ ss_wordnet y = wd_wordnet w.
+Proof. exact (@Word_synsets_scope). Qed.
+Print Assumptions C04_Word_synsets_scope.
+
+Theorem C04_Synset_words_scope :
+  forall (d : db) (y : Synset) (xs : list Word) (x : Word),
+         db_ok d = true ->
+         Synset_words d y = Ok xs ->
+         In x xs ->
+         exists s : Sense,
+           In s (Synset_senses d y) /\
+           Sense_word d s = Ok x /\
+           In (wd_lexid x) (scope d (ss_wordnet y) (sn_lexid s)) /\ wd_wordnet x = ss_wordnet y.
+Proof. exact (@Synset_words_scope). Qed.
+Print Assumptions C04_Synset_words_scope.
+
+Theorem C04_Sense_get_related_scope :
+  forall (d : db) (s : Sense) (args : list str) (ts : list Sense) (t : Sense),
+         Sense_get_related d s args = Ok ts ->
+         In t ts ->
+         In (sn_lexid t) (scope d (sn_wordnet s) (sn_lexid s)) /\ sn_wordnet t = sn_wordnet s.
+Proof. exact (@Sense_get_related_scope). Qed.
+Print Assumptions C04_Sense_get_related_scope.
+
+Theorem C04_Sense_relations_scope :
+  forall (d : db) (s : Sense) (args : list str) (m : list (str * list Sense))
+           (n : str) (ts : list Sense) (t : Sense),
+         Sense_relations d s args = Ok m ->
+         In (n, ts) m ->
+         In t ts ->
+         In (sn_lexid t) (scope d (sn_wordnet s) (sn_lexid s)) /\ sn_wordnet t = sn_wordnet s.
+Proof. exact (@Sense_relations_scope). Qed.
+Print Assumptions C04_Sense_relations_scope.
+
+Theorem C04_Sense_relation_map_scope :
+  forall (d : db) (s : Sense) (m : list (Relation * Sense)) (r : Relation) (t : Sense),
+         Sense_relation_map d s = Ok m ->
+         In (r, t) m ->
+         In (sn_lexid t) (scope d (sn_wordnet s) (sn_lexid s)) /\ sn_wordnet t = sn_wordnet s.
+Proof. exact (@Sense_relation_map_scope). Qed.
+Print Assumptions C04_Sense_relation_map_scope.
+
+Theorem C04_Sense_get_related_synsets_scope :
+  forall (d : db) (s : Sense) (args : list str) (ts : list Synset) (t : Synset),
+         Sense_get_related_synsets d s args = Ok ts ->
+         In t ts ->
+         In (ss_lexid t) (scope d (sn_wordnet s) (sn_lexid s)) /\ ss_wordnet t = sn_wordnet s.
+Proof. exact (@Sense_get_related_synsets_scope). Qed.
+Print Assumptions C04_Sense_get_related_synsets_scope.
+
+Theorem C04_Synset_iter_local_relations_scope :
+  forall (d : db) (y : Synset) (args : list str) (pairs : list (Relation * Synset))
+           (r : Relation) (t : Synset),
+         Synset_iter_local_relations d y args = Ok pairs ->
+         In (r, t) pairs ->
+         In (ss_lexid t) (scope d (ss_wordnet y) (ss_lexid y)) /\ ss_wordnet t = ss_wordnet y.
+Proof. exact (@Synset_iter_local_relations_scope). Qed.
+Print Assumptions C04_Synset_iter_local_relations_scope.
+
+Theorem C04_Synset_iter_expanded_relations_scope :
+  forall (d : db) (y : Synset) (args : list str) (pairs : list (Relation * Synset))
+           (r : Relation) (t : Synset),
+         Synset_iter_expanded_relations d y args = Ok pairs ->
+         In (r, t) pairs -> expanded_target_ok d y t.
+Proof. exact (@Synset_iter_expanded_relations_scope). Qed.
+Print Assumptions C04_Synset_iter_expanded_relations_scope.
+
+Theorem C04_Synset_get_related_scope :
+  forall (d : db) (y : Synset) (args : list str) (ts : list Synset) (t : Synset),
+         Synset_get_related d y args = Ok ts -> In t ts -> expanded_target_ok d y t.
+Proof. exact (@Synset_get_related_scope). Qed.
+Print Assumptions C04_Synset_get_related_scope.
+
+Theorem C04_Synset_relations_scope :
+  forall (d : db) (y : Synset) (args : list str) (m : list (str * list Synset))
+           (n : str) (ts : list Synset) (t : Synset),
+         Synset_relations d y args = Ok m -> In (n, ts) m -> In t ts -> expanded_target_ok d y t.
+Proof. exact (@Synset_relations_scope). Qed.
+Print Assumptions C04_Synset_relations_scope.
+
+Theorem C04_Synset_relation_map_scope :
+  forall (d : db) (y : Synset) (m : list (Relation * Synset)) (r : Relation) (t : Synset),
+         Synset_relation_map d y = Ok m -> In (r, t) m -> expanded_target_ok d y t.
+Proof. exact (@Synset_relation_map_scope). Qed.
+Print Assumptions C04_Synset_relation_map_scope.
+
+Theorem C04_Synset_get_related_scope_no_expand :
+  forall (d : db) (y : Synset) (args : list str) (ts : list Synset) (t : Synset),
+         wn_expanded_ids (ss_wordnet y) = [] ->
+         Synset_get_related d y args = Ok ts ->
+         In t ts ->
+         In (ss_lexid t) (scope d (ss_wordnet y) (ss_lexid y)) /\ ss_wordnet t = ss_wordnet y.
+Proof. exact (@Synset_get_related_scope_no_expand). Qed.
+Print Assumptions C04_Synset_get_related_scope_no_expand.
+
+(* ---- specialised to a restricted Wordnet w: everything reached from an entity of w lies in the selection of w *)
+Theorem C04_S1_Word_senses :
+  forall (d : db) (w : Wordnet),
+         wn_default_mode w = false ->
+         forall (x : Word) (s : Sense),
+         wd_wordnet x = w ->
+         In s (Word_senses d x) -> In (sn_lexid s) (wn_lexicon_ids w) /\ sn_wordnet s = w.
+Proof. exact (@S1_Word_senses). Qed.
+Print Assumptions C04_S1_Word_senses.
+
+Theorem C04_S1_Synset_senses :
+  forall (d : db) (w : Wordnet),
+         wn_default_mode w = false ->
+         forall (y : Synset) (s : Sense),
+         ss_wordnet y = w ->
+         In s (Synset_senses d y) -> In (sn_lexid s) (wn_lexicon_ids w) /\ sn_wordnet s = w.
+Proof. exact (@S1_Synset_senses). Qed.
+Print Assumptions C04_S1_Synset_senses.
+
+Theorem C04_S1_Sense_word :
+  forall (d : db) (w : Wordnet),
+         wn_default_mode w = false ->
+         forall (s : Sense) (x : Word),
+         db_ok d = true ->
+         sn_wordnet s = w ->
+         Sense_word d s = Ok x -> In (wd_lexid x) (wn_lexicon_ids w) /\ wd_wordnet x = w.
+Proof. exact (@S1_Sense_word). Qed.
+Print Assumptions C04_S1_Sense_word.
+
+Theorem C04_S1_Sense_synset :
+  forall (d : db) (w : Wordnet),
+         wn_default_mode w = false ->
+         forall (s : Sense) (y : Synset),
+         db_ok d = true ->
+         sn_wordnet s = w ->
+         Sense_synset d s = Ok y -> In (ss_lexid y) (wn_lexicon_ids w) /\ ss_wordnet y = w.
+Proof. exact (@S1_Sense_synset). Qed.
+Print Assumptions C04_S1_Sense_synset.
+
+Theorem C04_S1_Word_synsets :
+  forall (d : db) (w : Wordnet),
+         wn_default_mode w = false ->
+         forall (x : Word) (ys : list Synset) (y : Synset),
+         db_ok d = true ->
+         wd_wordnet x = w ->
+         Word_synsets d x = Ok ys ->
+         In y ys -> In (ss_lexid y) (wn_lexicon_ids w) /\ ss_wordnet y = w.
+Proof. exact (@S1_Word_synsets). Qed.
+Print Assumptions C04_S1_Word_synsets.
+
+Theorem C04_S1_Synset_words :
+  forall (d : db) (w : Wordnet),
+         wn_default_mode w = false ->
+         forall (y : Synset) (xs : list Word) (x : Word),
+         db_ok d = true ->
+         ss_wordnet y = w ->
+         Synset_words d y = Ok xs ->
+         In x xs -> In (wd_lexid x) (wn_lexicon_ids w) /\ wd_wordnet x = w.
+Proof. exact (@S1_Synset_words). Qed.
+Print Assumptions C04_S1_Synset_words.
+
+Theorem C04_S1_Sense_get_related :
+  forall (d : db) (w : Wordnet),
+         wn_default_mode w = false ->
+         forall (s : Sense) (args : list str) (ts : list Sense) (t : Sense),
+         sn_wordnet s = w ->
+         Sense_get_related d s args = Ok ts ->
+         In t ts -> In (sn_lexid t) (wn_lexicon_ids w) /\ sn_wordnet t = w.
+Proof. exact (@S1_Sense_get_related). Qed.
+Print Assumptions C04_S1_Sense_get_related.
+
+Theorem C04_S1_Sense_relations :
+  forall (d : db) (w : Wordnet),
+         wn_default_mode w = false ->
+         forall (s : Sense) (args : list str) (m : list (str * list Sense))
+           (n : str) (ts : list Sense) (t : Sense),
+         sn_wordnet s = w ->
+         Sense_relations d s args = Ok m ->
+         In (n, ts) m -> In t ts -> In (sn_lexid t) (wn_lexicon_ids w) /\ sn_wordnet t = w.
+Proof. exact (@S1_Sense_relations). Qed.
+Print Assumptions C04_S1_Sense_relations.
+
+Theorem C04_S1_Sense_relation_map :
+  forall (d : db) (w : Wordnet),
+         wn_default_mode w = false ->
+         forall (s : Sense) (m : list (Relation * Sense)) (r : Relation) (t : Sense),
+         sn_wordnet s = w ->
+         Sense_relation_map d s = Ok m ->
+         In (r, t) m -> In (sn_lexid t) (wn_lexicon_ids w) /\ sn_wordnet t = w.
+Proof. exact (@S1_Sense_relation_map). Qed.
+Print Assumptions C04_S1_Sense_relation_map.
+
+Theorem C04_S1_Sense_get_related_synsets :
+  forall (d : db) (w : Wordnet),
+         wn_default_mode w = false ->
+         forall (s : Sense) (args : list str) (ts : list Synset) (t : Synset),
+         sn_wordnet s = w ->
+         Sense_get_related_synsets d s args = Ok ts ->
+         In t ts -> In (ss_lexid t) (wn_lexicon_ids w) /\ ss_wordnet t = w.
+Proof. exact (@S1_Sense_get_related_synsets). Qed.
+Print Assumptions C04_S1_Sense_get_related_synsets.
+
+Theorem C04_S1_Synset_local_relations :
+  forall (d : db) (w : Wordnet),
+         wn_default_mode w = false ->
+         forall (y : Synset) (args : list str) (pairs : list (Relation * Synset))
+           (r : Relation) (t : Synset),
+         ss_wordnet y = w ->
+         Synset_iter_local_relations d y args = Ok pairs ->
+         In (r, t) pairs -> In (ss_lexid t) (wn_lexicon_ids w) /\ ss_wordnet t = w.
+Proof. exact (@S1_Synset_local_relations). Qed.
+Print Assumptions C04_S1_Synset_local_relations.
+
+Theorem C04_S1_Synset_expanded_relations :
+  forall (d : db) (w : Wordnet),
+         wn_default_mode w = false ->
+         forall (y : Synset) (args : list str) (pairs : list (Relation * Synset))
+           (r : Relation) (t : Synset),
+         ss_wordnet y = w ->
+         Synset_iter_expanded_relations d y args = Ok pairs ->
+         In (r, t) pairs ->
+         (In (ss_lexid t) (wn_lexicon_ids w) \/
+          ss__id t = NON_ROWID /\ ss_lexid t = ss_lexid y /\ ss_id t = _INFERRED_SYNSET) /\
+         ss_wordnet t = w.
+Proof. exact (@S1_Synset_expanded_relations). Qed.
+Print Assumptions C04_S1_Synset_expanded_relations.
+
+Theorem C04_S1_Synset_get_related :
+  forall (d : db) (w : Wordnet),
+         wn_default_mode w = false ->
+         forall (y : Synset) (args : list str) (ts : list Synset) (t : Synset),
+         ss_wordnet y = w ->
+         Synset_get_related d y args = Ok ts ->
+         In t ts ->
+         (In (ss_lexid t) (wn_lexicon_ids w) \/
+          ss__id t = NON_ROWID /\ ss_lexid t = ss_lexid y /\ ss_id t = _INFERRED_SYNSET) /\
+         ss_wordnet t = w.
+Proof. exact (@S1_Synset_get_related). Qed.
+Print Assumptions C04_S1_Synset_get_related.
+
+(* ---- frame: a query restricted to lexicon rowids [ids] returns the same rows on two databases that agree on the rows of those lexicons (and on the rows those rows point to) *)
+Theorem C04_get_senses_frame :
+  forall (d1 d2 : db) (ids : list Z) (rowid : Z) (st : sourcetype),
+         agree_senses d1 d2 ids -> _get_senses d1 rowid st ids = _get_senses d2 rowid st ids.
+Proof. exact (@get_senses_frame). Qed.
+Print Assumptions C04_get_senses_frame.
+
+Theorem C04_get_entry_senses_frame :
+  forall (d1 d2 : db) (ids : list Z) (rowid : Z),
+         agree_senses d1 d2 ids -> get_entry_senses d1 rowid ids = get_entry_senses d2 rowid ids.
+Proof. exact (@get_entry_senses_frame). Qed.
+Print Assumptions C04_get_entry_senses_frame.
+
+Theorem C04_get_synset_members_frame :
+  forall (d1 d2 : db) (ids : list Z) (rowid : Z),
+         agree_senses d1 d2 ids -> get_synset_members d1 rowid ids = get_synset_members d2 rowid ids.
+Proof. exact (@get_synset_members_frame). Qed.
+Print Assumptions C04_get_synset_members_frame.
+
+Theorem C04_find_senses_frame :
+  forall (d1 d2 : db) (ids : list Z) (id : option str) (forms : list str)
+           (pos : option str) (norm saf : bool),
+         ids <> [] ->
+         db_ok d1 = true ->
+         db_ok d2 = true ->
+         agree_senses d1 d2 ids ->
+         agree_sense_forms d1 d2 ids ->
+         find_senses d1 id forms pos ids norm saf = find_senses d2 id forms pos ids norm saf.
+Proof. exact (@find_senses_frame). Qed.
+Print Assumptions C04_find_senses_frame.
+
+Theorem C04_find_entries_frame :
+  forall (d1 d2 : db) (ids : list Z) (id : option str) (forms : list str)
+           (pos : option str) (norm saf : bool),
+         ids <> [] ->
+         db_ok d1 = true ->
+         db_ok d2 = true ->
+         agree_entries d1 d2 ids ->
+         find_entries d1 id forms pos ids norm saf = find_entries d2 id forms pos ids norm saf.
+Proof. exact (@find_entries_frame). Qed.
+Print Assumptions C04_find_entries_frame.
+
+Theorem C04_find_synsets_frame :
+  forall (d1 d2 : db) (ids : list Z) (id pos ili : option str) (norm saf : bool),
+         ids <> [] ->
+         agree_synsets d1 d2 ids ->
+         find_synsets d1 id [] pos ili ids norm saf = find_synsets d2 id [] pos ili ids norm saf.
+Proof. exact (@find_synsets_frame). Qed.
+Print Assumptions C04_find_synsets_frame.
+
+Theorem C04_get_synset_relations_frame :
+  forall (d1 d2 : db) (ids srcs : list Z) (types : list str),
+         db_ok d1 = true ->
+         db_ok d2 = true ->
+         agree_shared d1 d2 ->
+         agree_synsets d1 d2 ids ->
+         filter (fun r : relation_row => sel ids (rl_lexicon_rowid r)) (t_synset_relations d1) =
+         filter (fun r : relation_row => sel ids (rl_lexicon_rowid r)) (t_synset_relations d2) ->
+         get_synset_relations d1 srcs types ids = get_synset_relations d2 srcs types ids.
+Proof. exact (@get_synset_relations_frame). Qed.
+Print Assumptions C04_get_synset_relations_frame.
+
+Theorem C04_get_sense_synset_relations_frame :
+  forall (d1 d2 : db) (ids : list Z) (src : Z) (types : list str),
+         db_ok d1 = true ->
+         db_ok d2 = true ->
+         agree_shared d1 d2 ->
+         agree_synsets d1 d2 ids ->
+         filter (fun r : relation_row => sel ids (rl_lexicon_rowid r)) (t_sense_synset_relations d1) =
+         filter (fun r : relation_row => sel ids (rl_lexicon_rowid r)) (t_sense_synset_relations d2) ->
+         get_sense_synset_relations d1 src types ids = get_sense_synset_relations d2 src types ids.
+Proof. exact (@get_sense_synset_relations_frame). Qed.
+Print Assumptions C04_get_sense_synset_relations_frame.
+
+Theorem C04_get_sense_relations_frame :
+  forall (d1 d2 : db) (ids : list Z) (src : Z) (types : list str),
+         db_ok d1 = true ->
+         db_ok d2 = true ->
+         agree_shared d1 d2 ->
+         agree_senses d1 d2 ids ->
+         filter (fun r : relation_row => sel ids (rl_lexicon_rowid r)) (t_sense_relations d1) =
+         filter (fun r : relation_row => sel ids (rl_lexicon_rowid r)) (t_sense_relations d2) ->
+         get_sense_relations d1 src types ids = get_sense_relations d2 src types ids.
+Proof. exact (@get_sense_relations_frame). Qed.
+Print Assumptions C04_get_sense_relations_frame.
+
+(* ---- non-vacuity: db_ok holds on databases decoded from real dumps (built by wn.add, and an adversarial table-level one) *)
+Theorem C04_db_ok_sample_1 :
+  db_ok sample_db_1 = true.
+Proof. exact (@db_ok_sample_1). Qed.
+Print Assumptions C04_db_ok_sample_1.
+
+Theorem C04_db_ok_sample_2 :
+  db_ok sample_db_2 = true.
+Proof. exact (@db_ok_sample_2). Qed.
+Print Assumptions C04_db_ok_sample_2.
+
+Theorem C04_db_ok_fuzz :
+  db_ok sample_db_fuzz = true.
+Proof. exact (@db_ok_fuzz). Qed.
+Print Assumptions C04_db_ok_fuzz.
+
